@@ -132,10 +132,13 @@ QUICK_CLOSED = [("Z1", dict(n=2)), ("Z2", dict(n=2)), ("Z3", dict(n=2)), ("Z4", 
                 ("Z20", dict(n=3, buf=1)), ("Z21", dict(n=3, buf=1)),
                 # combinators inside the dataflow: three-port ParamCombinator, partly consumed ParamCombinator, FileCombinator with independent
                 # upstreams and with one shared upstream (at its documented limit: as many items as the buffer holds)
-                ("PC3", dict(nx=1, ny=1, nz=2)), ("PC2S", dict(n=2)), ("FC2", dict(n=2, m=2)), ("FCS", dict(n=2, buf=2))]
+                ("PC3", dict(nx=1, ny=1, nz=2)), ("PC2S", dict(n=2)), ("FC2", dict(n=2, m=2)), ("FCS", dict(n=2, buf=2)),
+                # a Concatenator (collect everything, emit one file) between tasks; nothing to collect
+                ("ZCAT", dict(n=2)), ("ZCAT", dict(n=0))]
 THOROUGH_CLOSED = QUICK_CLOSED + [("Z1", dict(n=3)), ("Z1", dict(n=3, buf=2)), ("Z2", dict(n=2, buf=2)), ("Z3", dict(n=2, buf=2, mx=1)),
                                   ("Z4", dict(n=2)), ("Z9", dict(n=2)), ("Z13", dict(n=1)), ("Z5b", dict(n=3, m=1)),
-                                  ("Z7", dict(n=2, mx=1)), ("Z10", dict(n=4, buf=2, mx=2)), ("Z6", dict(n=3))]
+                                  ("Z7", dict(n=2, mx=1)), ("Z10", dict(n=4, buf=2, mx=2)), ("Z6", dict(n=3)),
+                                  ("ZCAT", dict(n=3, buf=1)), ("ZCAT", dict(n=2, two=True))]
 REAL = [("Z1", dict(n=4)), ("Z2", dict(n=4)), ("Z3", dict(n=4)), ("Z4", dict(n=3)), ("Z5", dict(n=3, m=1)), ("Z6", dict(n=3)),
         ("Z7", dict(n=3)), ("Z8", dict(n=3)), ("Z9", dict(n=3)), ("Z10", dict(n=5)), ("Z13", dict(n=3)), ("Z14", dict(n=4)),
         ("Z15", {}), ("Z16", dict(n=3)), ("Z5b", dict(n=4, m=1)), ("Z5b", dict(n=6, m=1, buf=2)), ("Z17", dict(n=5)),
@@ -213,6 +216,7 @@ def check_C05(tier):
               ("Z13", dict(n=4, mx=3)), ("Z13", dict(n=3, mx=4)),
               ("Z20", dict(n=10, buf=2)), ("Z20", dict(n=6, buf=1)), ("Z20", dict(n=12, buf=3, mx=4)),
               ("Z21", dict(n=6, buf=2)), ("Z21", dict(n=5, buf=1)),
+              ("ZCAT", dict(n=5, buf=2)), ("ZCAT", dict(n=4, buf=1, two=True)), ("ZCAT", dict(n=0)),
               # RunTo / RunToRegex: the run set ends in the middle of the graph, more results than buffer slots on the cut connections
               ("Z1", dict(n=5, buf=2), dict(mode="runto", targets=["a"])), ("Z3", dict(n=4, buf=1), dict(mode="runto", targets=["a", "b"])),
               ("Z16", dict(n=5, buf=2), dict(mode="runto", targets=["a"])), ("Z2", dict(n=4, buf=1), dict(mode="runto", targets=["b"]))]
